@@ -366,6 +366,10 @@ let handle (fields : string list) : string * string =
     (m, if m = impl then "ok"
         else if String.length impl >= 3 && String.sub impl 0 3 = "acc" then "fail:accepted-a-token-the-specification-rejects"
         else "fail:" ^ (if String.length m >= 3 && String.sub m 0 3 = "acc" then "rejected-a-valid-token" else "idp-consultation-or-other"))
+  | "usertok" :: _ :: _ :: _ :: "LEAK" :: _tokhex :: _ :: [] ->
+    ("opaque", "fail:user-name-readable-from-the-token-text")
+  | "usertok" :: _ :: _ :: _ :: "MINT-FAILED" :: _ :: _ :: [] ->
+    ("minted", "fail:gateway-could-not-mint-a-user-token")
   | "usertok" :: ek :: sk :: now :: term :: _tokhex :: impl :: [] ->
     let m = (match Model.user_info (ukey ek) (ukey sk) (z_of_int (int_of_string now)) (jwe_of_term term) with
         | Some sub -> "ok:" ^ hex_of_bytes sub | None -> "rej") in
